@@ -68,20 +68,17 @@
 //#define PRINT_F_PREC_SHORTENED 4 /* shortened precision for real numbers */
 #define PRINT_F_PREC_DEFAULT 6 /* default precision for real numbers */
 
-static int print_s(void (*printchar_handler)(void *d, int c),
-                   void *printchar_data,
-                   const char *str,
-                   int width,
-                   int max_len,
-                   unsigned int ops)
+/* len characters of str (any characters, NUL included) in a field of width */
+static int print_buf(void (*printchar_handler)(void *d, int c),
+                     void *printchar_data,
+                     const char *str,
+                     int len,
+                     int width,
+                     unsigned int ops)
 {
-    int pc, len, space_count;
+    int pc, space_count;
 
     pc = 0;
-    /* with a precision the string need not be terminated: never look
-     * further than the precision allows */
-    len = ops & OPS_PREC_IS_GIVEN ? (int)strnlen(str, max_len)
-                                  : (int)strlen(str);
     space_count = width > len ? width - len : 0;
 
     if (!(ops & OPS_FLAG_LEFT_ALIGN))
@@ -100,6 +97,23 @@ static int print_s(void (*printchar_handler)(void *d, int c),
         printchar_handler(printchar_data, ' ');
 
     return pc;
+}
+
+static int print_s(void (*printchar_handler)(void *d, int c),
+                   void *printchar_data,
+                   const char *str,
+                   int width,
+                   int max_len,
+                   unsigned int ops)
+{
+    int len;
+
+    /* with a precision the string need not be terminated: never look
+     * further than the precision allows */
+    len = ops & OPS_PREC_IS_GIVEN ? (int)strnlen(str, max_len)
+                                  : (int)strlen(str);
+
+    return print_buf(printchar_handler, printchar_data, str, len, width, ops);
 }
 
 static int print_i(void (*printchar_handler)(void *d, int c),
@@ -586,14 +600,14 @@ int __printf(void (*printchar_handler)(void *d, int c),
             break;
         case 'c':
             /* TODO handle (ops & OPS_LEN_LONG) for wint_t */
+            /* one character, whatever it is: %c prints a NUL too */
             tmp.ca[0] = (char)va_arg(args, int);
-            tmp.ca[1] = '\0';
-            pc += print_s(printchar_handler,
-                          printchar_data,
-                          &tmp.ca[0],
-                          width,
-                          precision,
-                          ops);
+            pc += print_buf(printchar_handler,
+                            printchar_data,
+                            &tmp.ca[0],
+                            1,
+                            width,
+                            ops);
             break;
         case 's':
             /* TODO handle (ops & OPS_LEN_LONG) for wchar_t* */
